@@ -107,3 +107,35 @@ func thmSwapSymmetric(a, b []byte, m SubstitutionMatrix) (float64, float64) {
 	_, s2 := Global(b, a, m)
 	return s1, s2
 }
+
+//@ theorem C09.levenshteinDistance
+//@   props C09
+//@   requires imul(len(a) + 1, len(b) + 1) <= 4611686018427387904
+//@   requires forall p int :: 0 <= p && p < len(a) ==> a[p] != 255
+//@   requires forall q int :: 0 <= q && q < len(b) ==> b[q] != 255
+//@   use-lemma levTable(fieldarr(blocks, score), fieldarr(blocks, step), a, b, len(a), len(b), mapval(Levenshtein), imul(len(a) + 1, len(b) + 1), len(a), len(b))
+//@   ensures result == 0.0 - real(lev(a, b, len(a), len(b)))
+// With the Levenshtein matrix the Global score is exactly minus the edit distance of the two byte strings, the
+// edit distance being defined by the Wagner-Fischer recurrence with unit costs (spec function lev).
+func thmLevenshteinDistance(a, b []byte) float64 {
+	_, s := Global(a, b, Levenshtein)
+	return s
+}
+
+//@ theorem C09.swapSymmetricLocal
+//@   props C09
+//@   requires imul(len(a) + 1, len(b) + 1) <= 4611686018427387904 && imul(len(b) + 1, len(a) + 1) <= 4611686018427387904
+//@   requires has(m, key2(255, 255)) && mapval(m)[key2(255, 255)] == 0.0
+//@   requires forall p int :: 0 <= p && p < len(a) ==> has(m, key2(a[p], 255)) && has(m, key2(255, a[p])) && m[key2(a[p], 255)] <= 0.0
+//@   requires forall q int :: 0 <= q && q < len(b) ==> has(m, key2(255, b[q])) && has(m, key2(b[q], 255)) && m[key2(255, b[q])] <= 0.0
+//@   requires forall p int, q int :: 0 <= p && p < len(a) && 0 <= q && q < len(b) ==> has(m, key2(a[p], b[q])) && has(m, key2(b[q], a[p]))
+//@   requires forall x int, y int :: {key2(x, y)} mapval(m)[key2(x, y)] == mapval(m)[key2(y, x)]
+//@   use-lemma swapLocal(fieldarr(blocks1, score), fieldarr(blocks1, step), fieldarr(blocks2, score), fieldarr(blocks2, step), a, b, len(a), len(b), mapval(m), imul(len(a) + 1, len(b) + 1), idiv(imax1, len(b) + 1), imod(imax1, len(b) + 1))
+//@   use-lemma swapLocal(fieldarr(blocks1, score), fieldarr(blocks1, step), fieldarr(blocks2, score), fieldarr(blocks2, step), a, b, len(a), len(b), mapval(m), imul(len(a) + 1, len(b) + 1), imod(imax2, len(a) + 1), idiv(imax2, len(a) + 1))
+//@   ensures result.0 == result.1
+// The same for Local: the maximal cell of the transposed table is the maximal cell of the table.
+func thmSwapSymmetricLocal(a, b []byte, m SubstitutionMatrix) (float64, float64) {
+	_, _, _, s1 := Local(a, b, m)
+	_, _, _, s2 := Local(b, a, m)
+	return s1, s2
+}
